@@ -145,6 +145,16 @@ func (m *Replica) fail(what string) bool {
 
 type IOs struct{ M *Replica }
 
+// zzAnswerLate: in the native replay a replica that answers an operation successfully
+// answers after the ones that fail it (a failing replica typically answers at once, a
+// healthy one after its disk write) - the order in which the engine ran the goroutines of
+// the counterexample is thereby the order the replay sees.
+func zzAnswerLate() {
+	if !zzSymbolic() {
+		time.Sleep(15 * time.Millisecond)
+	}
+}
+
 func (s *IOs) WriteAt(p []byte, off int64) (int, error) {
 	m := s.M
 	m.noteCall(true)
@@ -161,6 +171,7 @@ func (s *IOs) WriteAt(p []byte, off int64) (int, error) {
 	// three outcomes: ok / error without effect / applied but error
 	o := zzChoice(FailTag+"w.outcome."+m.Addr, 3)
 	if o == 0 {
+		zzAnswerLate()
 		m.Applied = append(m.Applied, Op{"W", id})
 		return len(p), nil
 	}
@@ -204,6 +215,7 @@ func (s *IOs) Sync() (int, error) {
 		m.Failed = append(m.Failed, Op{"S", id})
 		return -1, ErrIO
 	}
+	zzAnswerLate()
 	m.Applied = append(m.Applied, Op{"S", id})
 	return 0, nil
 }
@@ -217,6 +229,7 @@ func (s *IOs) Unmap(off int64, length int64) (int, error) {
 		m.Failed = append(m.Failed, Op{"U", id})
 		return -1, ErrIO
 	}
+	zzAnswerLate()
 	m.Applied = append(m.Applied, Op{"U", id})
 	return 0, nil
 }
